@@ -124,7 +124,8 @@ fo("C02","When a Get returns, a provenance oracle (evaluated atomically with gho
 fo("C04","Every schedule is checked for deadlock (a maximal execution in which a thread rests at a Lock or channel receive that the final state does not let through), for close of a closed channel and unlock of an unlocked mutex; at quiescence (all Gets and background builds finished) the key-lock map is empty and no build is in flight.",
    "no key lock remains|no build in flight|auto:no-deadlock|auto:close|quiescence|never observes the caller|stored under the key its Get",
    quick_l2=FOQ+["verifL_Failover_1_env:l2","verifL_FailoverOf_1_env:l2"], thorough_l2=FOT+["verifL_Failover_2_env:l2","verifL_FailoverOf_2_env:l2"],
-   extra_expl=" The *_env harnesses let the caller overwrite its key buffer with the other key and cancel its context right after Get returned (variables captured by the background goroutine become shared state from the go statement on): the build never observes the cancellation, the built value is stored under the key Get was called with and the lock of that key is released.")
+   seq=["verifH_C04_Seq:int","verifH_C04_SeqOf:int"],
+   extra_expl=" The *_env harnesses let the caller overwrite its key buffer with the other key and cancel its context right after Get returned (variables captured by the background goroutine become shared state from the go statement on): the build never observes the cancellation, the built value is stored under the key Get was called with and the lock of that key is released. The sequential harnesses verifH_C04_Seq* (integer mode) run two Gets for one key one after the other with the failure cache in play (default FailedUpdateTTL or -1), every configuration, every entry age (absent / fresh / stale / too stale, re-aged between the Gets), both builder outcomes and an arbitrary time between the Gets: every Get returns and no key lock remains at quiescence.")
 P["C04"]["thorough"]["l2_labels"]="no key lock remains|no build in flight|auto:|quiescence|never observes the caller|stored under the key its Get"
 fo("C05","With SyncRead enabled (and no injected faults) no builder invocation for a key starts after a build for that key has succeeded, under every schedule. The failure-suppression half is decided sequentially (verifH_C05_*): after a failed build the cached error is served without invoking the builder while t2-t1 is inside the failure TTL window, the builder is invoked again after it, and always with FailedUpdateTTL=-1.",
    "SyncRead: no build starts", seq=["verifH_C05_Failover:int","verifH_C05_FailoverOf:int"])
